@@ -184,7 +184,7 @@ func cmdCheck(args []string) int {
 	dir, _ := os.MkdirTemp("", "govc-"+*prop+"-")
 	defer os.RemoveAll(dir)
 	stats := newStats()
-	cands, kept := solveAll(vcs, SolveOpts{TimeoutS: timeout, AllSolvers: *tier == "thorough", Dir: dir}, stats)
+	cands, kept := solveAll(vcs, SolveOpts{TimeoutS: timeout, AllSolvers: *tier == "thorough", Retry: *tier != "thorough", Dir: dir}, stats)
 
 	findings := loadFindings(filepath.Join(*verif, "known_findings.json"))
 	known := map[string]Finding{}
